@@ -18,6 +18,20 @@ CLAIMED = {
                 "(its geometric correctness is C07/C08). One open known finding (F5) is re-demonstrated on every run.",
         "technique": "deterministic simulation: seeded save/load histories with benign environment faults against a reference model",
     },
+    "C02": {
+        "category": "exploration",
+        "text": "As C01 with write_oas/read_oas, with the configuration space as swarm: run i uses option set (i*2654435761 + seed) mod 5120 of "
+                "256 flag sets x 10 deflate levels x circle tolerance {0,>0}, so consecutive runs sweep all 5120 combinations; libraries "
+                "include references to cells outside the library, negative explicit repetition offsets, 32-bit tags, typed user properties.  "
+                "Oracle: canonical form equal to the model (repetitions kept structurally as offset multisets, S_* properties set aside), "
+                "detected circles within the stated tolerances (two-sided boundary distance), later cycles change nothing; signature clause: "
+                "stored bytes == independent CRC-32 / byte sum, oas_validate agrees, and after seeded bit/byte flips (storage faults) the "
+                "verdict equals the independent recomputation.",
+        "design_ref": "DESIGN.md 5.4",
+        "note": "Trusted: canonicaliser, builder, own CRC-32. Non-simple paths are outside the property's quantifier and not generated. "
+                "One open known finding (F11) is re-demonstrated on every run.",
+        "technique": "deterministic simulation: seeded save/load histories over the full writer-option space, storage bit flips against an independent checksum",
+    },
     "C03": {
         "category": "exploration",
         "text": "Two parties exchange files through the simulated disk: an independent GDSII encoder (written from the format description, with "
@@ -78,7 +92,7 @@ NA = {
     "C20": "Map/Set/TagMap/StyleMap, property lists and sort are sequential data structures never shared between threads; stateful PBT, not simulation.",
 }
 PENDING = {k: "simulation check under construction in this round (see DESIGN.md section 5); not claimed until it exists"
-           for k in ("C02", "C04")}
+           for k in ("C04",)}
 
 def main():
     checks = []
